@@ -88,7 +88,7 @@ func menuFor(profile string) []opGen {
 	case "valset":
 		return []opGen{
 			{"delegate", 22, opDelegate}, {"undelegate", 16, opUndelegate}, {"redelegate", 6, opRedelegate},
-			{"unjail", 3, opUnjail}, {"create-validator", 2, opCreateValidator},
+			{"unjail", 3, opUnjail}, {"create-validator", 2, opCreateValidator}, {"retire-validator", 1, opRetireValidator},
 			{"create-consumer", 3, opCreateConsumer}, {"update-consumer", 6, opUpdateConsumer}, {"remove-consumer", 1, opRemoveConsumer},
 			{"opt-in", 8, opOptIn}, {"opt-out", 6, opOptOut}, {"assign-key", 6, opAssignKey}, {"commission", 1, opCommission},
 			{"gov-params", 2, opGovParams}, {"gov-staking", 1, opGovStaking}, {"to-gov", 2, opToGov}, {"gov-topn", 4, opGovTopN},
@@ -116,7 +116,7 @@ func menuFor(profile string) []opGen {
 	case "keys":
 		return []opGen{
 			{"assign-key", 20, opAssignKey}, {"opt-in", 8, opOptIn}, {"opt-out", 3, opOptOut},
-			{"create-validator", 6, opCreateValidator}, {"undelegate", 5, opUndelegate}, {"delegate", 3, opDelegate},
+			{"create-validator", 6, opCreateValidator}, {"undelegate", 5, opUndelegate}, {"delegate", 3, opDelegate}, {"retire-validator", 3, opRetireValidator},
 			{"create-consumer", 4, opCreateConsumer}, {"update-consumer", 2, opUpdateConsumer}, {"remove-consumer", 2, opRemoveConsumer},
 			{"gov-staking", 1, opGovStaking},
 		}
